@@ -222,8 +222,8 @@ fn validate_type(env: &TypeEnv, seen: &mut BTreeMap<String, bool>, t: &Type) -> 
         TypeInner::Func(func) => validate_func(env, seen, func),
         TypeInner::Service(methods) => {
             for (_, ty) in methods.iter() {
-                let func = env.as_func(ty)?;
-                validate_func(env, seen, func)?;
+                env.as_func(ty)?;
+                validate_type(env, seen, ty)?;
             }
             Ok(())
         }
